@@ -479,7 +479,19 @@ Definition msg_slot_ok (s : schema) (sub : nat -> list val -> bytes -> bool) (en
            (f : fdesc) (j : nat) (v : val) : bool :=
   if i_repeated (field_info s f) then match v with VList l => forallb (msg_elem_ok s sub enc f j) l | _ => false end
   else msg_elem_ok s sub enc f j v.
-Definition map_slot_ok (kk vk : kind) (v : val) : bool := false.
+Definition entry_payload (kk vk : kind) (e : val * val) : bytes :=
+  (if spec_default kk (fst e) then [] else spec_field kk 1 (fst e)) ++ (if spec_default vk (snd e) then [] else spec_field vk 2 (snd e)).
+(* Go map keys are pairwise distinct *)
+Fixpoint keys_fresh (acc l : list (val * val)) : bool :=
+  match l with
+  | [] => true
+  | e :: t => negb (existsb (fun e' => spec_key_eqb (fst e') (fst e)) acc) && keys_fresh (acc ++ [e]) t
+  end.
+Definition map_slot_ok (kk vk : kind) (v : val) : bool :=
+  match v with
+  | VMap l => forallb (fun e => scalar_ok kk (fst e) && scalar_ok vk (snd e) && lenb (entry_payload kk vk e)) l && keys_fresh [] l
+  | _ => false
+  end.
 Definition cast_of (f : fdesc) : cast := match f_custom f with CTimestamp => CastTs | _ => CastDur end.
 Definition cast_opt_ok (c : cast) (x : val) : bool := match x with VOpt None => true | VOpt (Some y) => cast_elem_ok c y | _ => false end.
 Definition cast_slot_ok (s : schema) (f : fdesc) (v : val) : bool :=
@@ -853,6 +865,76 @@ Proof.
 Qed.
 End CastFieldRT.
 
+(* ---------------------------------------------------------------- map fields *)
+Lemma entry_rt kk vk k v : scalar_ok kk k = true -> scalar_ok vk v = true ->
+  bytes_ok (entry_payload kk vk (k, v)) /\ map_entry_of kk vk (entry_payload kk vk (k, v)) = Some (k, v).
+Proof.
+  intros Hk Hv. unfold entry_payload. cbn [fst snd].
+  assert (Hb1 : bytes_ok (spec_field kk 1 k)).
+  { unfold spec_field. apply bytes_ok_app; [apply spec_tag_bytes_ok; [lia|pose proof (wire_of_range kk); lia]|apply spec_payload_bytes_ok; exact Hk]. }
+  assert (Hb2 : bytes_ok (spec_field vk 2 v)).
+  { unfold spec_field. apply bytes_ok_app; [apply spec_tag_bytes_ok; [lia|pose proof (wire_of_range vk); lia]|apply spec_payload_bytes_ok; exact Hv]. }
+  split.
+  - destruct (spec_default kk k), (spec_default vk v); cbn [app]; [constructor|exact Hb2|rewrite app_nil_r; exact Hb1|apply bytes_ok_app; assumption].
+  - rewrite map_entry_of_fold.
+    destruct (spec_default kk k) eqn:Dk; destruct (spec_default vk v) eqn:Dv; cbn [app].
+    + rewrite tokens_nil. cbn. rewrite (default_is_zero kk k Hk Dk), (default_is_zero vk v Hv Dv). reflexivity.
+    + destruct (tokens_field_cons vk 2 v [] eq_refl Hv ltac:(constructor)) as [tok [Et [E1 E2]]]. rewrite app_nil_r in Et.
+      rewrite Et, tokens_nil. cbn [fold_opt fold_left]. unfold me_h, mini_h. rewrite E1. cbn [Z.eqb Pos.eqb]. rewrite E2.
+      rewrite (default_is_zero kk k Hk Dk). reflexivity.
+    + destruct (tokens_field_cons kk 1 k [] eq_refl Hk ltac:(constructor)) as [tok [Et [E1 E2]]]. rewrite app_nil_r in *.
+      rewrite Et, tokens_nil. cbn [fold_opt fold_left]. unfold me_h, mini_h. rewrite E1. cbn [Z.eqb Pos.eqb]. rewrite E2.
+      rewrite (default_is_zero vk v Hv Dv). reflexivity.
+    + destruct (tokens_field_cons vk 2 v [] eq_refl Hv ltac:(constructor)) as [tok2 [Et2 [E21 E22]]]. rewrite app_nil_r in Et2.
+      destruct (tokens_field_cons kk 1 k (spec_field vk 2 v) eq_refl Hk Hb2) as [tok1 [Et1 [E11 E12]]].
+      rewrite Et1, Et2, tokens_nil. cbn [fold_opt fold_left]. unfold me_h, mini_h. rewrite E11. cbn [Z.eqb Pos.eqb]. rewrite E12. rewrite E21. cbn [Z.eqb Pos.eqb]. rewrite E22. reflexivity.
+Qed.
+
+Section MapFieldRT.
+Variables (s : schema) (G : nat) (idx : nat) (m : mdesc).
+Hypothesis Hm : nth_error s idx = Some m.
+Hypothesis Hnd : NoDup (map fnum (mfields m)).
+Variable rr : nat -> list val -> bytes -> bytes.
+
+Lemma map_rt kk vk slot f fs : In (slot, f) (number_from 0 (mfields m)) ->
+  f_custom f = CNone -> fty f = TMap kk vk -> foneof f = None -> valid_number (fnum f) = true ->
+  map_slot_ok kk vk (nth slot fs (VInt 0)) = true ->
+  field_rt s G idx m (ref_slot rr) (fun _ v => v) (fun _ => VMap []) fs (slot, f).
+Proof.
+  intros Hin Hc Ht Hno Hv Hok t u Hz _. cbn [fst snd] in *.
+  assert (Hvn : 0 <= fnum f) by (unfold valid_number in Hv; apply andb_true_iff in Hv; destruct Hv as [H1 _]; apply Z.leb_le in H1; lia).
+  unfold map_slot_ok in Hok. destruct (nth slot fs (VInt 0)) as [| | | | | |l| |] eqn:Ev; try discriminate Hok.
+  apply andb_true_iff in Hok. destruct Hok as [Hall Hfresh].
+  assert (Henc : ref_slot rr f (VMap l) = flat_map (fun e => spec_ld (fnum f) (entry_payload kk vk e)) l).
+  { unfold ref_slot. rewrite Hc, Ht. reflexivity. }
+  rewrite Henc.
+  assert (Hk : forall payload t0 k v, map_entry_of kk vk payload = Some (k, v) ->
+             apply_known s (ref_decode G s) m slot f {| t_num := fnum f; t_wt := 2; t_pay := PBytes payload; t_raw := spec_varint (Z.of_nat (length payload)) ++ payload |} t0 =
+             Some (set_nth t0 slot (VMap (spec_map_set (match nth slot t0 (VInt 0) with VMap l0 => l0 | _ => [] end) k v)))).
+  { intros payload t0 k v Hme. unfold apply_known. rewrite Hc, Ht. cbn [t_pay]. rewrite Hme, (clear_siblings_none m f slot t0 Hno). reflexivity. }
+  assert (Gl : forall l0 acc t0, forallb (fun e => scalar_ok kk (fst e) && scalar_ok vk (snd e) && lenb (entry_payload kk vk e)) l0 = true ->
+            keys_fresh acc l0 = true -> nth slot t0 (VInt 0) = VMap acc -> (slot < length t0)%nat ->
+            bytes_ok (flat_map (fun e => spec_ld (fnum f) (entry_payload kk vk e)) l0) /\
+            ref_decode (S G) s idx (flat_map (fun e => spec_ld (fnum f) (entry_payload kk vk e)) l0) (t0, u) = Some (set_nth t0 slot (VMap (acc ++ l0)), u)).
+  { induction l0 as [|[k v] l0 IH]; intros acc t0 Hal Hfr Hn Hsl.
+    - split; [constructor|]. cbn [flat_map]. rewrite (ref_decode_nil s idx m Hm), app_nil_r, <- Hn, set_nth_same. reflexivity.
+    - cbn [flat_map forallb keys_fresh fst snd] in *. apply andb_true_iff in Hal. destruct Hal as [He Hal].
+      apply andb_true_iff in He. destruct He as [He Hlen]. apply andb_true_iff in He. destruct He as [Hkk Hvk].
+      apply andb_true_iff in Hfr. destruct Hfr as [Hnew Hfr]. apply negb_true_iff in Hnew.
+      destruct (entry_rt kk vk k v Hkk Hvk) as [Hbp Hme].
+      assert (Hb1 : bytes_ok (spec_ld (fnum f) (entry_payload kk vk (k, v)))) by (apply spec_ld_bytes_ok; assumption).
+      assert (Hd1 : ref_decode (S G) s idx (spec_ld (fnum f) (entry_payload kk vk (k, v))) (t0, u) = Some (set_nth t0 slot (VMap (acc ++ [(k, v)])), u)).
+      { pose proof (ld_token (fnum f) (entry_payload kk vk (k, v)) [] Hv Hbp Hlen ltac:(constructor)) as Ep. rewrite app_nil_r in Ep.
+        apply (decode_one_token s G idx m Hm Hnd slot f _ _ t0 u _ Hin (tokens_single _ _ (spec_ld_nonempty _ _) Ep) eq_refl).
+        rewrite (Hk _ t0 k v Hme), Hn. unfold spec_map_set. rewrite Hnew. reflexivity. }
+      destruct (IH (acc ++ [(k, v)]) (set_nth t0 slot (VMap (acc ++ [(k, v)]))) Hal Hfr ltac:(apply nth_set_nth_in; exact Hsl) ltac:(rewrite set_nth_length; exact Hsl)) as [Hb2 Hd2].
+      split; [apply bytes_ok_app; assumption|].
+      rewrite (ref_decode_app (S G) s idx _ _ (t0, u) _ Hb1 Hd1), Hd2. rewrite set_nth_set_nth, <- app_assoc. reflexivity. }
+  destruct (Nat.lt_ge_cases slot (length t)) as [Hsl|Hsl]; [|exfalso; rewrite nth_overflow in Hz by exact Hsl; discriminate Hz].
+  destruct (Gl l [] t Hall Hfresh Hz Hsl) as [Hb Hd]. split; [exact Hb|exact Hd].
+Qed.
+End MapFieldRT.
+
 (* ---------------------------------------------------------------- the round trip, by induction on the nesting of the value *)
 Section Top.
 Variable s : schema.
@@ -919,6 +1001,13 @@ Proof.
       apply (msg_rt s G idx m Hm Hnd g Hsub Hstable Hidx ltac:(lia) j slot f fs Hin Hms Hc Ht Hv); [|exact Hok].
       intros Ho. destruct Hs as [[_ [[[k [Hk|[Hk _]]] _]|[[j' [Ht' [[Hl Hp]|[Hl Hno]]]]|[kk [vk [Ht' _]]]]]]|[[E|E] _]]; try congruence.
       split; [apply info_not_repeated, Hl|apply Hp, Ho].
+    + (* map *)
+      assert (Hno : foneof f = None).
+      { destruct Hs as [[_ [[[k [Hk|[Hk _]]] _]|[[j' [Ht' _]]|[kk' [vk' [Ht' Hno]]]]]]|[[E|E] _]]; try congruence. }
+      apply (field_rt_ext s G idx m (ref_slot (ref_encode g s)) _ (fun _ v => v) _ (fun _ => VMap []) _ fs (slot, f)); cbn [fst snd];
+        [reflexivity|unfold norm_slot; rewrite Hc, Ht; reflexivity| |].
+      * destruct (length s); cbn [zero_slot]; unfold field_info; rewrite Hc, Ht; destruct (flabel f); reflexivity.
+      * apply (map_rt s G idx m Hm Hnd (ref_encode g s) kk vk slot f fs Hin Hc Ht Hno Hv Hok).
   - (* Timestamp *)
     assert (Hcc : f_custom f = CTimestamp \/ f_custom f = CDuration) by (left; exact Hc).
     assert (Hor : foneof f <> None -> i_repeated (field_info s f) = false).
@@ -963,6 +1052,8 @@ Proof.
     destruct Hrp as [Hr Hp]. unfold msg_slot_ok in Hok. rewrite Hr in Hok. unfold msg_elem_ok in Hok. rewrite Hp in Hok.
     destruct v as [| | | |[[fs1 u1]|]|fs1 u1| | |]; try discriminate Hok; [discriminate Hns|].
     unfold ref_slot, norm_slot. rewrite Hc, Ht. cbn. repeat split. right; reflexivity.
+  - (* maps are never oneof members *)
+    exfalso. destruct Hs as [[_ [[[k [Hk|[Hk _]]] _]|[[j' [Ht' _]]|[kk' [vk' [Ht' Hno]]]]]]|[[E|E] _]]; congruence.
   - (* Timestamp member *)
     assert (Hok' : cast_slot_ok s f v = true) by (destruct (fty f); exact Hok).
     assert (Hr : i_repeated (field_info s f) = false) by (destruct Hs as [[E _]|[_ Hor]]; [congruence|apply Hor, Ho]).
